@@ -116,3 +116,42 @@ func WithTimeout(parent Context, d time.Duration) (Context, CancelFunc) {
 	}
 	return WithDeadline(parent, vrt.TimeNow().Add(d))
 }
+
+func WithDeadlineCause(parent Context, d time.Time, cause error) (Context, CancelFunc) {
+	if !vrt.Active() {
+		return rc.WithDeadlineCause(parent, d, cause)
+	}
+	return WithDeadline(parent, d)
+}
+
+func WithTimeoutCause(parent Context, d time.Duration, cause error) (Context, CancelFunc) {
+	if !vrt.Active() {
+		return rc.WithTimeoutCause(parent, d, cause)
+	}
+	return WithTimeout(parent, d)
+}
+
+// AfterFunc runs f in its own goroutine once ctx is done; stop prevents that if it has not
+// started yet.
+func AfterFunc(ctx Context, f func()) (stop func() bool) {
+	if !vrt.Active() {
+		return rc.AfterFunc(ctx, f)
+	}
+	stopCh := vrt.MakeChan[struct{}](0, "context.AfterFunc")
+	state := 0 // 0 waiting, 1 running, 2 stopped
+	vrt.Go("context.AfterFunc", func() {
+		i, _, _ := vrt.Select("context.AfterFunc", false, vrt.RecvCase(ctx.Done()), vrt.RecvCase((<-chan struct{})(stopCh)))
+		if i == 0 && state == 0 {
+			state = 1
+			f()
+		}
+	})
+	return func() bool {
+		if state != 0 {
+			return false
+		}
+		state = 2
+		vrt.Close(stopCh, "context.AfterFunc.stop")
+		return true
+	}
+}
